@@ -17,22 +17,28 @@ func VerifC11DupBounds() { c11Snapshot(2, true) }
 
 // VerifC11Override: the derived scope overrides the root's tag value (same prefix, same
 // number of tags) - its entries must carry its own tags.
-func VerifC11Override() { c11Override = true; c11Snapshot(2, false) }
+func VerifC11Override() { c11Override = 1; c11Snapshot(2, false) }
 
-var c11Override bool
+// VerifC11OverrideWider: the derived scope re-defines the root's tag and adds another one (its
+// call-site tag set is larger than the parent's): rightmost still wins.
+func VerifC11OverrideWider() { c11Override = 2; c11Snapshot(2, false) }
+
+var c11Override int
 
 func c11Snapshot(steps int, dup bool) {
 	prefix := verifrt.String("prefix", verifrt.Choose("plen", 2))
 	verifrt.Class("a-string-contains-a-key-delimiter(,=+)", hasDelim(prefix))
 	ts := NewTestScope(prefix, map[string]string{"r": "1"})
 	sub := ts.SubScope("s").Tagged(map[string]string{"t": "2"})
-	if c11Override {
+	if c11Override == 1 {
 		sub = ts.Tagged(map[string]string{"r": "2"})
+	} else if c11Override == 2 {
+		sub = ts.Tagged(map[string]string{"r": "2", "w": "3"})
 	}
 	scopes := []Scope{ts, sub}
 	fq := func(k int, name string) string {
 		p := prefix
-		if k == 1 && !c11Override {
+		if k == 1 && c11Override == 0 {
 			if p == "" {
 				p = "s"
 			} else {
@@ -45,8 +51,11 @@ func c11Snapshot(steps int, dup bool) {
 		return p + "." + name
 	}
 	tagsOf := func(k int) map[string]string {
-		if k == 1 && c11Override {
+		if k == 1 && c11Override == 1 {
 			return map[string]string{"r": "2"}
+		}
+		if k == 1 && c11Override == 2 {
+			return map[string]string{"r": "2", "w": "3"}
 		}
 		if k == 1 {
 			return map[string]string{"r": "1", "t": "2"}
@@ -126,7 +135,7 @@ func c11Snapshot(steps int, dup bool) {
 				verifrt.Emit("c", e.Value())
 				verifrt.Assert("c11.counter-is-sum", e.Value() == cSum[k])
 				verifrt.Assert("c11.counter-name", e.Name() == fq(k, "c"))
-				verifrt.Assert("c11.counter-tags", len(e.Tags()) == len(tags) && e.Tags()["r"] == tags["r"] && (k == 0 || c11Override || e.Tags()["t"] == "2"))
+				verifrt.Assert("c11.counter-tags", len(e.Tags()) == len(tags) && e.Tags()["r"] == tags["r"] && e.Tags()["t"] == tags["t"] && e.Tags()["w"] == tags["w"])
 				// modifying the snapshot does not affect the scope (done after all entries were
 				// checked: the entries of one scope in one snapshot may share their tag map)
 				mutate = append(mutate, func() { e.Tags()["r"] = "changed" })
